@@ -61,9 +61,9 @@ def discharge(ob: Obligation, tier: str):
     _discharge(ob, tier)
     if ob.status == "unknown" and ob.kind == "property" and tier == "quick" and not str(ob.backend).startswith("DISAGREE"):
         first = ob.ms
-        _discharge(ob, "thorough")
+        _discharge(ob, "retry")
         ob.ms += first
-        ob.backend = str(ob.backend) + " [after retry with the thorough budget]"
+        ob.backend = str(ob.backend) + " [after retry with a larger budget]"
 
 
 def _discharge(ob: Obligation, tier: str):
@@ -71,8 +71,8 @@ def _discharge(ob: Obligation, tier: str):
     4.8.12 (and cvc5 where needed): z3 5.1.0's sequence rewriter is known to be unsound on some
     inputs (seq.nth over nested concatenations), so neither an `unsat` nor a `sat` of it is
     accepted on its own word."""
-    timeout = 10000 if tier == "quick" else 60000
-    cli_t = 10 if tier == "quick" else 40
+    timeout = {"quick": 10000, "retry": 30000}.get(tier, 60000)
+    cli_t = {"quick": 10, "retry": 20}.get(tier, 40)
     cli_cache: dict = {}
     portfolio_ran = False
     pre_dump = None
@@ -99,12 +99,16 @@ def _discharge(ob: Obligation, tier: str):
         s, r, ms = _solver_check(ob.pc, ob.goal, min(2000, timeout))
         if r == "unknown":
             from concurrent.futures import ThreadPoolExecutor
-            s = z3.Solver()
+            # the full-budget attempt runs in a context of its own: it is interrupted from another thread
+            # when a command-line solver decides first, and an interrupt must never reach the context the
+            # symbolic executor works in
+            ctx2 = z3.Context()
+            s = z3.Solver(ctx=ctx2)
             s.set("timeout", timeout)
             s.set("max_memory", 6000)
             for f in ob.pc:
-                s.add(f)
-            s.add(z3.Not(ob.goal))
+                s.add(f.translate(ctx2))
+            s.add(z3.Not(ob.goal).translate(ctx2))
 
             class _Cancel:
                 deadline = None
@@ -200,7 +204,13 @@ def _discharge(ob: Obligation, tier: str):
             return
         ob.status = "refuted"
         try:
-            ob.model = s.model()
+            if s.ctx is not z3.main_ctx():
+                # the model must live in the context of the symbolic values it is evaluated on
+                s_main, r_main, ms_main = _solver_check(ob.pc, ob.goal, timeout)
+                ob.ms += ms_main
+                ob.model = s_main.model() if r_main == "sat" else None
+            else:
+                ob.model = s.model()
         except z3.Z3Exception:
             ob.model = None
         return
@@ -632,7 +642,9 @@ class Verifier:
                     rty = self.cdb.return_type(it, con, fi)
                 except Unsupported:
                     rty = None
-                if isinstance(result, (PyList, PyTuple)) and rty is not None and rty is not TNone:
+                from .tys import TOpt as _TOpt
+                from .builtins import is_none as _is_none
+                if (isinstance(result, (PyList, PyTuple)) or (_is_none(result) and isinstance(rty, _TOpt)) or (isinstance(result, SV) and isinstance(rty, _TOpt) and result.ty != rty)) and rty is not None and rty is not TNone:
                     try:
                         result = it.coerce(result, rty)
                     except Unsupported:
@@ -640,6 +652,10 @@ class Verifier:
                 e2["result"] = result
                 nfr = self.cdb.contract_frame(it, con, self.cdb.fn_env(con.ensures, e2), None, old_heap=old_heap, old_env=old_env)
                 for name, term in self.cdb.eval_clauses_fn(it, con.ensures, nfr):
+                    if name.startswith("A_"):
+                        # ghost definition ("the result is named g(args)"): nothing to prove here; callers assume it
+                        it.notes.add(f"ghost definition in ensures assumed at call sites, not an obligation: {name} (contract {con.name})")
+                        continue
                     kind = "property" if name.startswith("P_") else "supporting"
                     it.oblige(f"ensures:{name}", term, kind, site=("ens", name))
             self.frame_check(it, con, old_heap, mods)
